@@ -130,7 +130,7 @@ def evaluate(case) -> Verdict:
         {"mode": "strict", "extra": True, "twice": False, "limits": {"loop_iteration_limit": limit}, "flags": {"string_sequences": strseq}},
         partials,
     )
-    o = oc.outcome_of(lambda: env.from_string(src).render(**data))
+    o = oc.render(case, lambda: env.from_string(src), **data)
     # reference arithmetic: the product of lengths on the way down to every reachable node, in document order
     expect: dict = {}
     over: list = []
